@@ -1152,7 +1152,12 @@ func (in *inst) importReturn(st *State, ov AVal, isNil bool) {
 			return // some return is undetermined: cannot select
 		}
 	}
-	if len(match) != 1 {
+	if len(match) == 0 {
+		return
+	}
+	if len(match) > 1 {
+		// several returns are compatible (a fast path and a slow path that both succeed): what they agree on
+		in.importCommon(st, rec, match)
 		return
 	}
 	r := match[0]
@@ -1173,6 +1178,63 @@ func (in *inst) importReturn(st *State, ov AVal, isNil bool) {
 	}
 }
 
+// importCommon: the caller learned that one of several returns of the callee happened: results on which they all
+// agree, facts of the first that every other one proves, heap entries they share.
+func (in *inst) importCommon(st *State, rec *callRec, match []retInfo) {
+	if len(match) > 4 {
+		return
+	}
+	first := match[0]
+	for i, cr := range rec.Results {
+		same := true
+		for _, r := range match[1:] {
+			if !sameAVal(first.Results[i], r.Results[i]) {
+				same = false
+			}
+		}
+		if !same {
+			continue
+		}
+		rr := first.Results[i]
+		switch {
+		case cr.Kind == KInt && rr.Kind == KInt:
+			st.add(EQ(cr.Int, rr.Int)...)
+		case cr.Kind == KSlice && rr.Kind == KSlice:
+			st.add(EQ(cr.Len, rr.Len)...)
+		}
+	}
+	if len(first.State.Facts) >= rec.NFacts {
+		n := 0
+		for _, f := range first.State.Facts[rec.NFacts:] {
+			if n > 40 {
+				break
+			}
+			n++
+			all := true
+			for _, r := range match[1:] {
+				if !Proves(r.State.Facts, f) {
+					all = false
+					break
+				}
+			}
+			if all {
+				st.add(f)
+			}
+		}
+	}
+	for k, v := range first.State.Heap {
+		same := true
+		for _, r := range match[1:] {
+			if w, ok := r.State.Heap[k]; !ok || !sameAVal(v, w) {
+				same = false
+			}
+		}
+		if same {
+			st.Heap[k] = v
+		}
+	}
+}
+
 // importReturnBool: like importReturn, selecting on a boolean result that is constant at every return.
 func (in *inst) importReturnBool(st *State, ov AVal, truth bool) {
 	rec := ov.Rec
@@ -1189,7 +1251,12 @@ func (in *inst) importReturnBool(st *State, ov AVal, truth bool) {
 			match = append(match, r)
 		}
 	}
-	if len(match) != 1 {
+	if len(match) == 0 {
+		return
+	}
+	if len(match) > 1 {
+		// several returns are compatible (a fast path and a slow path that both succeed): what they agree on
+		in.importCommon(st, rec, match)
 		return
 	}
 	r := match[0]
@@ -1209,6 +1276,7 @@ func (in *inst) importReturnBool(st *State, ov AVal, truth bool) {
 		st.Heap[k] = v
 	}
 }
+
 
 func (in *inst) ordinal(ins ssa.Instruction, kind string) int {
 	m := in.a.ordinals[in.fn]
